@@ -256,11 +256,6 @@ def h_probe(ctx: Any, code: str, n: int, script: str, mode: str = 'C', stacks: A
         done = False
     except Exception as e:
         C.reraise_control(e)
-        if (opname in ('deal_hole', 'deal_board') and isinstance(e, KeyError) and can
-                and args and args[0] == '??' and 'UNKNOWN' in repr(e)):
-            # listed known finding F12: an UNKNOWN card that completes a street is accepted by the
-            # verifier, then hand evaluation / stud opener selection fails on it with KeyError
-            ctx.known('F12')
         ctx.fail('operation-raised-wrong-exception', f'{opname}{args} (can={can}): {type(e).__name__}: {e}')
     ctx.check(done == can, 'operation-disagrees-with-query', lambda: f'{opname}{args} can={can} done={done}')
     if not done:
@@ -311,7 +306,7 @@ def jobs(tier: str, seed: int) -> list[dict]:
                             params=dict(code=code, n=n, script=script, mode=mode, stacks=stacks,
                                         boards=boards),
                             budget_s=B, must_cover=['refused'], warnings='error'))
-    out.append(dict(name='known/F12', kind='native', fn='known_f12', params={}, budget_s=30))
+    out.append(dict(name='regression/F12', kind='native', fn='known_f12', params={}, budget_s=30))
     out.append(dict(name='NT/n3/ccc/C/warnings-ignored', fn='h_probe',
                     params=dict(code='NT', n=3, script='ccc', mode='C', warn='ignore'),
                     budget_s=B, must_cover=['refused'], warnings='ignore'))
@@ -362,5 +357,7 @@ def known_f12() -> dict:
     except Exception:
         pass
     if hits:
-        return dict(status='known-finding', what='F12 ' + ' || '.join(hits), native_replays=len(hits))
-    return dict(status='confirmed', reason='F12 no longer reproduces', native_replays=2)
+        # F12 was repaired (fix: commits faf271e, 4c1868a): if it returns it is a violation again
+        return dict(status='violation', kind='F12-returned', detail=' || '.join(hits),
+                    replay={'values': {'inputs': hits}, 'outcome': 'viol'})
+    return dict(status='confirmed', reason='the repaired F12 inputs behave', native_replays=2)
